@@ -7,6 +7,7 @@ CONSTANTS
   Editing = TRUE
   WarmSet = {FALSE}
   DScales = {2}
+  DPfx = {TRUE}
   AddScales = {2}
   ModScales = {4}
   ReadKeys = {"kfoo", "km"}
@@ -14,6 +15,7 @@ CONSTANTS
   BinP = {"foo", "m"}
   BinF = {"mul", "add"}
   CopyP = {"kfoo"}
+  ConvHows = {"to"}
 INIT Init
 NEXT Next
 VIEW View
